@@ -1151,6 +1151,79 @@ Proof.
   eexists. split; [exact P1|]. split; [exact P2|]. split; [exact P3|]. split; [exact P4|exact P5].
 Qed.
 
+(* ------------------------------------------------------------------ histories that start with UnionFind(l) *)
+Lemma fold_add_apply l s : fold_left add l s = fold_left apply (map Add l) s.
+Proof. revert s; induction l as [|x t IH]; intros s; simpl; auto. Qed.
+
+Lemma reach_from_full l h : reach_from l h = reach (full l h).
+Proof.
+  unfold reach_from, reach, full, init_from. rewrite fold_left_app, fold_add_apply. reflexivity.
+Qed.
+
+Lemma reach_from_nil h : reach_from [] h = reach h.
+Proof. reflexivity. Qed.
+
+Lemma uf_invariant_from : forall (l : list Z) (h : list op),
+  uf_wf (reach_from l h) /\ uf_total (reach_from l h).
+Proof. intros l h. rewrite reach_from_full. apply uf_invariant. Qed.
+
+Lemma uf_refines_from : forall (l : list Z) (h : list op) (x y : Z),
+  let s := reach_from l h in
+  let H := full l h in
+  (mem s x = true <-> present H x) /\
+  ((exists s', connected s x y = Ok (s', true)) <-> conn H x y) /\
+  ((exists s', connected s x y = Ok (s', false)) <-> present H x /\ present H y /\ ~ conn H x y) /\
+  (connected s x y = ValueError <-> ~ present H x \/ ~ present H y) /\
+  (forall s' i, find s x = Ok (s', i) ->
+      i < length (elts s) /\ conn H x (nth i (elts s) 0%Z) /\
+      forall y s'' j, conn H x y -> find s' y = Ok (s'', j) -> j = i).
+Proof. intros l h x y. cbv zeta. rewrite reach_from_full. apply (uf_refines (full l h) x y). Qed.
+
+Lemma uf_queries_pure_from : forall (l : list Z) (h : list op) (o : op),
+  is_query o ->
+  let s := reach_from l h in
+  let s' := apply s o in
+  elts s' = elts s /\ siz s' = siz s /\ ncomps s' = ncomps s /\
+  n_elts s' = n_elts s /\ next s' = next s /\ indx s' = indx s /\
+  (forall i, i < length (elts s) -> root_of s' i = root_of s i) /\
+  (forall x y, same_comp s' x y = same_comp s x y) /\
+  (forall x y, conn (full l h ++ [o]) x y <-> conn (full l h) x y).
+Proof. intros l h o Q. cbv zeta. rewrite reach_from_full. apply (uf_queries_pure (full l h) o Q). Qed.
+
+Lemma uf_views_from : forall (l : list Z) (h : list op),
+  let s := reach_from l h in
+  let H := full l h in
+  (NoDup (elts s) /\ forall x, In x (elts s) <-> present H x) /\
+  (elts s = added H /\ n_elts s = length (added H) /\ next s = length (added H)) /\
+  (forall i, getitem s i = if ((i <? 0) || (Z.of_nat (length (added H)) <=? i))%Z then None
+                           else Some (nth (Z.to_nat i) (added H) 0%Z)) /\
+  (forall x s' l, component s x = Ok (s', l) -> NoDup l /\ forall y, In y l <-> conn H x y) /\
+  (forall s' cs, components s = Ok (s', cs) ->
+     Permutation (concat cs) (elts s) /\ length cs = ncomps s /\ (forall c, In c cs -> c <> []) /\
+     (forall x y, (exists c, In c cs /\ In x c /\ In y c) <-> conn H x y)) /\
+  (forall s' rts, roots s = Ok (s', rts) ->
+     NoDup rts /\ length rts = ncomps s /\
+     (forall rt, In rt rts -> rt < length (elts s) /\ root_of s' rt = rt) /\
+     let reps := map (fun rt => nth rt (elts s) 0%Z) rts in
+     NoDup reps /\ (forall x, present H x -> exists e, In e reps /\ conn H x e) /\
+     (forall e1 e2, In e1 reps -> In e2 reps -> conn H e1 e2 -> e1 = e2)) /\
+  (forall s' m, mapping s = Ok (s', m) ->
+     map fst m = elts s /\
+     forall x c, In (x, c) m -> NoDup c /\ forall y, In y c <-> conn H x y) /\
+  (exists reps, length reps = ncomps s /\ NoDup reps /\ (forall e, In e reps -> present H e) /\
+     (forall x, present H x -> exists e, In e reps /\ conn H x e) /\
+     (forall e1 e2, In e1 reps -> In e2 reps -> conn H e1 e2 -> e1 = e2)).
+Proof. intros l h. cbv zeta. rewrite reach_from_full. apply (uf_views (full l h)). Qed.
+
+(* the constructor's elements are present, duplicates collapse *)
+Lemma present_full l h x : present (full l h) x <-> In x l \/ present h x.
+Proof.
+  unfold present, full. rewrite flat_map_app, in_app_iff.
+  assert (E : flat_map touched (map Add l) = l).
+  { induction l as [|a t IH]; simpl; [reflexivity|]. rewrite IH. reflexivity. }
+  rewrite E. tauto.
+Qed.
+
 (* ------------------------------------------------------------------ examples: the hypotheses are satisfiable *)
 Section Examples.
   Open Scope Z_scope.
@@ -1200,6 +1273,13 @@ Section Examples.
     getitem (reach ex_h) 3 = Some 3 /\ getitem (reach ex_h) 0 = Some 5 /\
     getitem (reach ex_h) (-1) = None /\ getitem (reach ex_h) 6 = None.
   Proof. repeat split; vm_compute; reflexivity. Qed.
+
+  (* the constructor on a container with duplicates: three elements, not six *)
+  Example ex_constructor :
+    let s := reach_from [4; 7; 4; 9; 7; 4] [Union 9 4] in
+    elts s = [4; 7; 9] /\ n_elts s = 3%nat /\ ncomps s = 2%nat /\
+    (exists s', components s = Ok (s', [[4; 9]; [7]])) /\ getitem s 3 = None.
+  Proof. cbv zeta. repeat split; try (eexists; vm_compute; reflexivity); vm_compute; reflexivity. Qed.
 
   (* a query that does compress a path (so "queries never change the partition" is not vacuous) *)
   Definition ex_h2 : list op := [Union 1 2; Union 3 4; Union 1 3].
